@@ -1,70 +1,184 @@
 // Wire layout tables, written from the protocol documents (ASAM CMP 1.0 "Capture Module Protocol", chapter
 // "Message formats"; Technica TECMP specification) - NOT derived from the library's headers. Only the
 // getter/setter *names* are the library's.  Bit numbering: bit 31 = most significant bit of the big-endian word.
-//   F(name, value type, getter, setter (argument v), byte offset, word bytes, mask in the word, shift)
+//   F(name, value type, getter expression on object o, setter statement on o (argument v), byte offset, word bytes, mask in the word, shift)
 #pragma once
 
 // ---- CMP header (8 bytes): version, reserved, device id (16), message type, stream id, sequence counter (16)
 #define LAYOUT_CMP_HEADER(F)                                                                                   \
-    F(version, uint8_t, getVersion(), setVersion(v), 0, 1, 0xFF, 0)                                            \
-    F(deviceId, uint16_t, getDeviceId(), setDeviceId(v), 2, 2, 0xFFFF, 0)                                      \
-    F(messageType, uint8_t, getMessageType(), setMessageType(static_cast<ASAM::CMP::CmpHeader::MessageType>(v)), 4, 1, 0xFF, 0) \
-    F(streamId, uint8_t, getStreamId(), setStreamId(v), 5, 1, 0xFF, 0)                                         \
-    F(sequenceCounter, uint16_t, getSequenceCounter(), setSequenceCounter(v), 6, 2, 0xFFFF, 0)
+    F(version, uint8_t, o.getVersion(), o.setVersion(v), 0, 1, 0xFF, 0)                                            \
+    F(deviceId, uint16_t, o.getDeviceId(), o.setDeviceId(v), 2, 2, 0xFFFF, 0)                                      \
+    F(messageType, uint8_t, o.getMessageType(), o.setMessageType(static_cast<ASAM::CMP::CmpHeader::MessageType>(v)), 4, 1, 0xFF, 0) \
+    F(streamId, uint8_t, o.getStreamId(), o.setStreamId(v), 5, 1, 0xFF, 0)                                         \
+    F(sequenceCounter, uint16_t, o.getSequenceCounter(), o.setSequenceCounter(v), 6, 2, 0xFFFF, 0)
 #define SIZE_CMP_HEADER 8
 
 // ---- message header (16 bytes): timestamp (64), interface id (32) [data] | reserved (16) + vendor id (16)
 //      [status/vendor], common flags (8): bit0 recalc, bit1 insync, bits2-3 seg, bit4 di_on_if, bit5 overflow,
 //      bit6 error in payload, bit7 reserved; payload type (8); payload length (16)
 #define LAYOUT_MESSAGE_HEADER(F)                                                                               \
-    F(timestamp, uint64_t, getTimestamp(), setTimestamp(v), 0, 8, 0xFFFFFFFFFFFFFFFFULL, 0)                    \
-    F(interfaceId, uint32_t, getInterfaceId(), setInterfaceId(v), 8, 4, 0xFFFFFFFF, 0)                         \
-    F(vendorId, uint16_t, getVendorId(), setVendorId(v), 10, 2, 0xFFFF, 0)                                     \
-    F(commonFlags, uint8_t, getCommonFlags(), setCommonFlags(v), 16, 1, 0xFF, 0)                               \
-    F(segmentType, uint8_t, getSegmentType(), setSegmentType(static_cast<ASAM::CMP::MessageHeader::SegmentType>(v)), 16, 1, 0x0C, 0) \
-    F(payloadType, uint8_t, getPayloadType(), setPayloadType(v), 17, 1, 0xFF, 0)                               \
-    F(payloadLength, uint16_t, getPayloadLength(), setPayloadLength(v), 18, 2, 0xFFFF, 0)
+    F(timestamp, uint64_t, o.getTimestamp(), o.setTimestamp(v), 0, 8, 0xFFFFFFFFFFFFFFFFULL, 0)                    \
+    F(interfaceId, uint32_t, o.getInterfaceId(), o.setInterfaceId(v), 8, 4, 0xFFFFFFFF, 0)                         \
+    F(vendorId, uint16_t, o.getVendorId(), o.setVendorId(v), 10, 2, 0xFFFF, 0)                                     \
+    F(commonFlags, uint8_t, o.getCommonFlags(), o.setCommonFlags(v), 12, 1, 0xFF, 0)                               \
+    F(segmentType, uint8_t, o.getSegmentType(), o.setSegmentType(static_cast<ASAM::CMP::MessageHeader::SegmentType>(v)), 12, 1, 0x0C, 0) \
+    F(payloadType, uint8_t, o.getPayloadType(), o.setPayloadType(v), 13, 1, 0xFF, 0)                               \
+    F(payloadLength, uint16_t, o.getPayloadLength(), o.setPayloadLength(v), 14, 2, 0xFFFF, 0)
 #define SIZE_MESSAGE_HEADER 16
 
 // ---- CAN / CAN-FD data message payload header (16 bytes)
 //  flags(16) reserved(16) | ID word: b31 IDE, b30 RTR/RRS, b29 rsvd, b28-0 ID | CRC word: b31 CRC support,
 //  CAN: b14-0 CRC; CAN-FD: b30 SBC support, b24 SBC parity, b23-21 SBC, b20-0 CRC | error position(16) DLC(8) data length(8)
 #define LAYOUT_CAN_HEADER(F)                                                                                   \
-    F(flags, uint16_t, getFlags(), setFlags(v), 0, 2, 0xFFFF, 0)                                               \
-    F(id, uint32_t, getId(), setId(v), 4, 4, 0x1FFFFFFF, 0)                                                    \
-    F(rsvd, bool, getRsvd(), setRsvd(v), 4, 4, 0x20000000, 29)                                                 \
-    F(rtrRrs, bool, getRtrRrs(), setRtrRrs(v), 4, 4, 0x40000000, 30)                                           \
-    F(ide, bool, getIde(), setIde(v), 4, 4, 0x80000000, 31)                                                    \
-    F(crc, uint16_t, getCrc(), setCrc(v), 8, 4, 0x00007FFF, 0)                                                 \
-    F(crcSupport, bool, getCrcSupport(), setCrcSupport(v), 8, 4, 0x80000000, 31)                               \
-    F(crcSbc, uint32_t, getCrcSbc(), setCrcSbc(v), 8, 4, 0x001FFFFF, 0)                                        \
-    F(sbc, uint8_t, getSbc(), setSbc(v), 8, 4, 0x00E00000, 21)                                                 \
-    F(sbcParity, bool, getSbcParity(), setSbcParity(v), 8, 4, 0x01000000, 24)                                  \
-    F(sbcSupport, bool, getSbcSupport(), setSbcSupport(v), 8, 4, 0x40000000, 30)                               \
-    F(errorPosition, uint16_t, getErrorPosition(), setErrorPosition(v), 12, 2, 0xFFFF, 0)                      \
-    F(dlc, uint8_t, getDlc(), setDlc(v), 14, 1, 0xFF, 0)                                                       \
-    F(dataLength, uint8_t, getDataLength(), setDataLength(v), 15, 1, 0xFF, 0)
+    F(flags, uint16_t, o.getFlags(), o.setFlags(v), 0, 2, 0xFFFF, 0)                                               \
+    F(id, uint32_t, o.getId(), o.setId(v), 4, 4, 0x1FFFFFFF, 0)                                                    \
+    F(rsvd, bool, o.getRsvd(), o.setRsvd(v), 4, 4, 0x20000000, 29)                                                 \
+    F(rtrRrs, bool, o.getRtrRrs(), o.setRtrRrs(v), 4, 4, 0x40000000, 30)                                           \
+    F(ide, bool, o.getIde(), o.setIde(v), 4, 4, 0x80000000, 31)                                                    \
+    F(crc, uint16_t, o.getCrc(), o.setCrc(v), 8, 4, 0x00007FFF, 0)                                                 \
+    F(crcSupport, bool, o.getCrcSupport(), o.setCrcSupport(v), 8, 4, 0x80000000, 31)                               \
+    F(crcSbc, uint32_t, o.getCrcSbc(), o.setCrcSbc(v), 8, 4, 0x001FFFFF, 0)                                        \
+    F(sbc, uint8_t, o.getSbc(), o.setSbc(v), 8, 4, 0x00E00000, 21)                                                 \
+    F(sbcParity, bool, o.getSbcParity(), o.setSbcParity(v), 8, 4, 0x01000000, 24)                                  \
+    F(sbcSupport, bool, o.getSbcSupport(), o.setSbcSupport(v), 8, 4, 0x40000000, 30)                               \
+    F(errorPosition, uint16_t, o.getErrorPosition(), o.setErrorPosition(v), 12, 2, 0xFFFF, 0)                      \
+    F(dlc, uint8_t, o.getDlc(), o.setDlc(v), 14, 1, 0xFF, 0)                                                       \
+    F(dataLength, uint8_t, o.getDataLength(), o.setDataLength(v), 15, 1, 0xFF, 0)
 #define SIZE_CAN_HEADER 16
 
 // the CanPayload / CanFdPayload wrappers (fields with a public setter on the payload class)
 #define LAYOUT_CAN_PAYLOAD(F)                                                                                  \
-    F(flags, uint16_t, getFlags(), setFlags(v), 0, 2, 0xFFFF, 0)                                               \
-    F(id, uint32_t, getId(), setId(v), 4, 4, 0x1FFFFFFF, 0)                                                    \
-    F(rsvd, bool, getRsvd(), setRsvd(v), 4, 4, 0x20000000, 29)                                                 \
-    F(rtr, bool, getRtr(), setRtr(v), 4, 4, 0x40000000, 30)                                                    \
-    F(ide, bool, getIde(), setIde(v), 4, 4, 0x80000000, 31)                                                    \
-    F(crc, uint16_t, getCrc(), setCrc(v), 8, 4, 0x00007FFF, 0)                                                 \
-    F(crcSupport, bool, getCrcSupport(), setCrcSupport(v), 8, 4, 0x80000000, 31)                               \
-    F(errorPosition, uint16_t, getErrorPosition(), setErrorPosition(v), 12, 2, 0xFFFF, 0)
+    F(flags, uint16_t, o.getFlags(), o.setFlags(v), 0, 2, 0xFFFF, 0)                                               \
+    F(id, uint32_t, o.getId(), o.setId(v), 4, 4, 0x1FFFFFFF, 0)                                                    \
+    F(rsvd, bool, o.getRsvd(), o.setRsvd(v), 4, 4, 0x20000000, 29)                                                 \
+    F(rtr, bool, o.getRtr(), o.setRtr(v), 4, 4, 0x40000000, 30)                                                    \
+    F(ide, bool, o.getIde(), o.setIde(v), 4, 4, 0x80000000, 31)                                                    \
+    F(crc, uint16_t, o.getCrc(), o.setCrc(v), 8, 4, 0x00007FFF, 0)                                                 \
+    F(crcSupport, bool, o.getCrcSupport(), o.setCrcSupport(v), 8, 4, 0x80000000, 31)                               \
+    F(errorPosition, uint16_t, o.getErrorPosition(), o.setErrorPosition(v), 12, 2, 0xFFFF, 0)
 #define LAYOUT_CANFD_PAYLOAD(F)                                                                                \
-    F(flags, uint16_t, getFlags(), setFlags(v), 0, 2, 0xFFFF, 0)                                               \
-    F(id, uint32_t, getId(), setId(v), 4, 4, 0x1FFFFFFF, 0)                                                    \
-    F(rsvd, bool, getRsvd(), setRsvd(v), 4, 4, 0x20000000, 29)                                                 \
-    F(rrs, bool, getRrs(), setRrs(v), 4, 4, 0x40000000, 30)                                                    \
-    F(ide, bool, getIde(), setIde(v), 4, 4, 0x80000000, 31)                                                    \
-    F(crc, uint32_t, getCrc(), setCrc(v), 8, 4, 0x001FFFFF, 0)                                                 \
-    F(sbc, uint8_t, getSbc(), setSbc(v), 8, 4, 0x00E00000, 21)                                                 \
-    F(sbcParity, bool, getSbcParity(), setSbcParity(v), 8, 4, 0x01000000, 24)                                  \
-    F(sbcSupport, bool, getSbcSupport(), setSbcSupport(v), 8, 4, 0x40000000, 30)                               \
-    F(crcSupport, bool, getCrcSupport(), setCrcSupport(v), 8, 4, 0x80000000, 31)                               \
-    F(errorPosition, uint16_t, getErrorPosition(), setErrorPosition(v), 12, 2, 0xFFFF, 0)
+    F(flags, uint16_t, o.getFlags(), o.setFlags(v), 0, 2, 0xFFFF, 0)                                               \
+    F(id, uint32_t, o.getId(), o.setId(v), 4, 4, 0x1FFFFFFF, 0)                                                    \
+    F(rsvd, bool, o.getRsvd(), o.setRsvd(v), 4, 4, 0x20000000, 29)                                                 \
+    F(rrs, bool, o.getRrs(), o.setRrs(v), 4, 4, 0x40000000, 30)                                                    \
+    F(ide, bool, o.getIde(), o.setIde(v), 4, 4, 0x80000000, 31)                                                    \
+    F(crc, uint32_t, o.getCrc(), o.setCrc(v), 8, 4, 0x001FFFFF, 0)                                                 \
+    F(sbc, uint8_t, o.getSbc(), o.setSbc(v), 8, 4, 0x00E00000, 21)                                                 \
+    F(sbcParity, bool, o.getSbcParity(), o.setSbcParity(v), 8, 4, 0x01000000, 24)                                  \
+    F(sbcSupport, bool, o.getSbcSupport(), o.setSbcSupport(v), 8, 4, 0x40000000, 30)                               \
+    F(crcSupport, bool, o.getCrcSupport(), o.setCrcSupport(v), 8, 4, 0x80000000, 31)                               \
+    F(errorPosition, uint16_t, o.getErrorPosition(), o.setErrorPosition(v), 12, 2, 0xFFFF, 0)
+
+// ---- LIN data message payload header (8 bytes): flags(16) reserved(16) PID(8: b7-6 parity, b5-0 id) reserved(8) checksum(8) data length(8)
+#define LAYOUT_LIN(F)                                                                                          \
+    F(flags, uint16_t, o.getFlags(), o.setFlags(v), 0, 2, 0xFFFF, 0)                                               \
+    F(linId, uint8_t, o.getLinId(), o.setLinId(v), 4, 1, 0x3F, 0)                                                  \
+    F(parityBits, uint8_t, o.getParityBits(), o.setParityBits(v), 4, 1, 0xC0, 6)                                   \
+    F(checksum, uint8_t, o.getChecksum(), o.setChecksum(v), 6, 1, 0xFF, 0)
+#define LAYOUT_LIN_HEADER(F) LAYOUT_LIN(F) F(dataLength, uint8_t, o.getDataLength(), o.setDataLength(v), 7, 1, 0xFF, 0)
+#define SIZE_LIN_HEADER 8
+
+// ---- Ethernet data message payload header (6 bytes): flags(16) reserved(16) data length(16)
+#define LAYOUT_ETH(F) F(flags, uint16_t, o.getFlags(), o.setFlags(v), 0, 2, 0xFFFF, 0)
+#define LAYOUT_ETH_HEADER(F) LAYOUT_ETH(F) F(dataLength, uint16_t, o.getDataLength(), o.setDataLength(v), 4, 2, 0xFFFF, 0)
+#define SIZE_ETH_HEADER 6
+
+// ---- analog data message payload header (16 bytes): flags(16: b1-0 sample datatype) reserved(8) unit(8)
+//      sample interval, offset, scalar (IEEE-754 single, big-endian)
+//      (the library's SampleDt enumerators are the datatype value in the low byte of the big-endian flags, as a
+//      host-order 16-bit constant: aInt32 = 0x0100; the value is taken from / put into the high byte of that constant)
+#define LAYOUT_ANALOG(F)                                                                                       \
+    F(flags, uint16_t, o.getFlags(), o.setFlags(v), 0, 2, 0xFFFF, 0)                                               \
+    F(sampleDt, uint8_t, (static_cast<uint16_t>(o.getSampleDt()) >> 8), o.setSampleDt(static_cast<ASAM::CMP::AnalogPayload::SampleDt>(static_cast<uint16_t>(v) << 8)), 1, 1, 0x03, 0) \
+    F(unit, uint8_t, o.getUnit(), o.setUnit(static_cast<ASAM::CMP::AnalogPayload::Unit>(v)), 3, 1, 0xFF, 0)       \
+    F(sampleInterval, float, o.getSampleInterval(), o.setSampleInterval(v), 4, 4, 0xFFFFFFFF, 0)                   \
+    F(sampleOffset, float, o.getSampleOffset(), o.setSampleOffset(v), 8, 4, 0xFFFFFFFF, 0)                         \
+    F(sampleScalar, float, o.getSampleScalar(), o.setSampleScalar(v), 12, 4, 0xFFFFFFFF, 0)
+#define SIZE_ANALOG_HEADER 16
+
+// ---- capture module status payload, fixed part (26 bytes)
+#define LAYOUT_CM(F)                                                                                           \
+    F(uptime, uint64_t, o.getUptime(), o.setUptime(v), 0, 8, 0xFFFFFFFFFFFFFFFFULL, 0)                             \
+    F(gmIdentity, uint64_t, o.getGmIdentity(), o.setGmIdentity(v), 8, 8, 0xFFFFFFFFFFFFFFFFULL, 0)                 \
+    F(gmClockQuality, uint32_t, o.getGmClockQuality(), o.setGmClockQuality(v), 16, 4, 0xFFFFFFFF, 0)               \
+    F(currentUtcOffset, uint16_t, o.getCurrentUtcOffset(), o.setCurrentUtcOffset(v), 20, 2, 0xFFFF, 0)             \
+    F(timeSource, uint8_t, o.getTimeSource(), o.setTimeSource(v), 22, 1, 0xFF, 0)                                  \
+    F(domainNumber, uint8_t, o.getDomainNumber(), o.setDomainNumber(v), 23, 1, 0xFF, 0)                            \
+    F(gptpFlags, uint8_t, o.getGptpFlags(), o.setGptpFlags(v), 25, 1, 0xFF, 0)
+#define SIZE_CM_HEADER 26
+
+// ---- interface status payload, fixed part (36 bytes)
+#define LAYOUT_IF(F)                                                                                           \
+    F(interfaceId, uint32_t, o.getInterfaceId(), o.setInterfaceId(v), 0, 4, 0xFFFFFFFF, 0)                         \
+    F(msgTotalRx, uint32_t, o.getMsgTotalRx(), o.setMsgTotalRx(v), 4, 4, 0xFFFFFFFF, 0)                            \
+    F(msgTotalTx, uint32_t, o.getMsgTotalTx(), o.setMsgTotalTx(v), 8, 4, 0xFFFFFFFF, 0)                            \
+    F(msgDroppedRx, uint32_t, o.getMsgDroppedRx(), o.setMsgDroppedRx(v), 12, 4, 0xFFFFFFFF, 0)                     \
+    F(msgDroppedTx, uint32_t, o.getMsgDroppedTx(), o.setMsgDroppedTx(v), 16, 4, 0xFFFFFFFF, 0)                     \
+    F(errorsTotalRx, uint32_t, o.getErrorsTotalRx(), o.setErrorsTotalRx(v), 20, 4, 0xFFFFFFFF, 0)                  \
+    F(errorsTotalTx, uint32_t, o.getErrorsTotalTx(), o.setErrorsTotalTx(v), 24, 4, 0xFFFFFFFF, 0)                  \
+    F(interfaceType, uint8_t, o.getInterfaceType(), o.setInterfaceType(v), 28, 1, 0xFF, 0)                         \
+    F(interfaceStatus, uint8_t, o.getInterfaceStatus(), o.setInterfaceStatus(static_cast<ASAM::CMP::InterfacePayload::InterfaceStatus>(v)), 29, 1, 0xFF, 0) \
+    F(featureSupportBitmask, uint32_t, o.getFeatureSupportBitmask(), o.setFeatureSupportBitmask(v), 32, 4, 0xFFFFFFFF, 0)
+#define SIZE_IF_HEADER 36
+
+// ---- TECMP header (28 bytes): device id(16; the library exposes its low byte, the high byte is 0 for frames it routes to
+//      TECMP) counter(16) version(8) message type(8) data type(16) reserved(16) device flags(16) | interface id(32)
+//      timestamp(64) payload length(16) data flags(16)
+#define LAYOUT_TECMP_HEADER(F)                                                                                 \
+    F(deviceId, uint8_t, o.getDeviceId(), o.setDeviceId(v), 1, 1, 0xFF, 0)                                         \
+    F(sequenceCounter, uint16_t, o.getSequenceCounter(), o.setSequenceCounter(v), 2, 2, 0xFFFF, 0)                 \
+    F(version, uint8_t, o.getVersion(), o.setVersion(v), 4, 1, 0xFF, 0)                                            \
+    F(messageType, uint8_t, o.getMessageType(), o.setMessageType(static_cast<TECMP::CmpHeader::MessageType>(v)), 5, 1, 0xFF, 0) \
+    F(dataType, uint16_t, o.getDataType(), o.setDataType(static_cast<TECMP::CmpHeader::DataType>(v)), 6, 2, 0xFFFF, 0) \
+    F(deviceFlags, uint16_t, o.getDeviceFlags(), o.setDeviceFlags(v), 10, 2, 0xFFFF, 0)                            \
+    F(interfaceId, uint32_t, o.getInterfaceId(), o.setInterfaceId(v), 12, 4, 0xFFFFFFFF, 0)                        \
+    F(timestamp, uint64_t, o.getTimestamp(), o.setTimestamp(v), 16, 8, 0xFFFFFFFFFFFFFFFFULL, 0)                   \
+    F(payloadLength, uint16_t, o.getPayloadLength(), o.setPayloadLength(v), 24, 2, 0xFFFF, 0)
+#define SIZE_TECMP_HEADER 28
+
+// ---- TECMP CAN payload: arbitration id(32) dlc(8) | TECMP LIN payload: pid(8) data length(8)
+#define LAYOUT_TECMP_CAN(F)                                                                                    \
+    F(arbId, uint32_t, o.getArbId(), o.setArbId(v), 0, 4, 0xFFFFFFFF, 0)                                           \
+    F(dlc, uint8_t, o.getDlc(), o.setDlc(v), 4, 1, 0xFF, 0)
+#define LAYOUT_TECMP_LIN(F)                                                                                    \
+    F(pid, uint8_t, o.getPid(), o.setPid(v), 0, 1, 0xFF, 0)                                                        \
+    F(dataLength, uint8_t, o.getDataLength(), o.setDataLength(v), 1, 1, 0xFF, 0)
+
+// ---- TECMP bus status payload as the library views it (generic part + one bus entry + link data), 28 bytes
+#define LAYOUT_TECMP_IF(F)                                                                                     \
+    F(vendorId, uint8_t, o.getVendorId(), o.setVendorId(v), 0, 1, 0xFF, 0)                                         \
+    F(cmVersion, uint8_t, o.getCmVersion(), o.setCmVersion(v), 1, 1, 0xFF, 0)                                      \
+    F(cmType, uint8_t, o.getCmType(), o.setCmType(v), 2, 1, 0xFF, 0)                                               \
+    F(vendorDataLength, uint16_t, o.getVendorDataLength(), o.setVendorDataLength(v), 4, 2, 0xFFFF, 0)              \
+    F(deviceId, uint16_t, o.getDeviceId(), o.setDeviceId(v), 6, 2, 0xFFFF, 0)                                      \
+    F(serialNumber, uint32_t, o.getSerialNumber(), o.setSerialNumber(v), 8, 4, 0xFFFFFFFF, 0)                      \
+    F(interfaceId, uint32_t, o.getInterfaceId(), o.setInterfaceId(v), 12, 4, 0xFFFFFFFF, 0)                        \
+    F(messagesTotal, uint32_t, o.getMessagesTotal(), o.setMessagesTotal(v), 16, 4, 0xFFFFFFFF, 0)                  \
+    F(errorsTotal, uint32_t, o.getErrorsTotal(), o.setErrorsTotal(v), 20, 4, 0xFFFFFFFF, 0)                        \
+    F(linkStatus, uint8_t, o.getVendorDataLinkStatus(), o.setVendorDataLinkStatus(v), 24, 1, 0xFF, 0)              \
+    F(linkQuality, uint8_t, o.getVendorDataLinkQuality(), o.setVendorDataLinkQuality(v), 25, 1, 0xFF, 0)           \
+    F(linkupTime, uint16_t, o.getVendorDataLinkupTime(), o.setVendorDataLinkupTime(v), 26, 2, 0xFFFF, 0)
+#define SIZE_TECMP_IF 28
+
+// ---- TECMP capture module status payload (36 bytes)
+#define LAYOUT_TECMP_CM(F)                                                                                     \
+    F(vendorId, uint8_t, o.getVendorId(), o.setVendorId(v), 0, 1, 0xFF, 0)                                         \
+    F(deviceVersion, uint8_t, o.getDeviceVersion(), o.setDeviceVersion(v), 1, 1, 0xFF, 0)                          \
+    F(deviceType, uint8_t, o.getDeviceType(), o.setDeviceType(v), 2, 1, 0xFF, 0)                                   \
+    F(vendorDataLength, uint16_t, o.getVendorDataLength(), o.setVendorDataLength(v), 4, 2, 0xFFFF, 0)              \
+    F(deviceId, uint16_t, o.getDeviceId(), o.setDeviceId(v), 6, 2, 0xFFFF, 0)                                      \
+    F(serialNumber, uint32_t, o.getSerialNumber(), o.setSerialNumber(v), 8, 4, 0xFFFFFFFF, 0)                      \
+    F(swMajor, uint8_t, o.getSwVersionMajor(), o.setSwVersionMajor(v), 13, 1, 0xFF, 0)                             \
+    F(swMinor, uint8_t, o.getSwVersionMinor(), o.setSwVersionMinor(v), 14, 1, 0xFF, 0)                             \
+    F(swPatch, uint8_t, o.getSwVersionPatch(), o.setSwVersionPatch(v), 15, 1, 0xFF, 0)                             \
+    F(hwMajor, uint8_t, o.getHwVersionMajor(), o.setHwVersionMajor(v), 16, 1, 0xFF, 0)                             \
+    F(hwMinor, uint8_t, o.getHwVersionMinor(), o.setHwVersionMinor(v), 17, 1, 0xFF, 0)                             \
+    F(bufferFill, uint8_t, o.getBufferFill(), o.setBufferFill(v), 18, 1, 0xFF, 0)                                  \
+    F(isBufferOverflow, uint8_t, o.getIsBufferOverflow(), o.setIsBufferOverflow(v), 19, 1, 0xFF, 0)                \
+    F(bufferSize, uint32_t, o.getBufferSize(), o.setBufferSize(v), 20, 4, 0xFFFFFFFF, 0)                           \
+    F(lifecycle, uint64_t, o.getLifecycle(), o.setLifecycle(v), 24, 8, 0xFFFFFFFFFFFFFFFFULL, 0)                   \
+    F(voltageWhole, uint8_t, o.getVoltageWhole(), o.setVoltageWhole(v), 32, 1, 0xFF, 0)                            \
+    F(voltageFraction, uint8_t, o.getVoltageFraction(), o.setVoltageFraction(v), 33, 1, 0xFF, 0)                   \
+    F(chassisTemp, uint8_t, o.getChassisTemp(), o.setChassisTemp(v), 34, 1, 0xFF, 0)                               \
+    F(siliconTemp, uint8_t, o.getSilliconTemp(), o.setSilliconTemp(v), 35, 1, 0xFF, 0)
+#define SIZE_TECMP_CM 36
